@@ -32,7 +32,7 @@ package totp2fa
 //@   property C01 C02 C03 C04 C12 C13 C18
 //@   -- C01/C02/C13: the session is completed only for the logged-in user, or - when nobody is
 //@   -- logged in - for the account parked in totp_pending, and only with that account's own factor
-//@   ensures[C01,C02,C13] second_factor_guard: each Sess.Put("uid", ?v) =>
+//@   ensures[C01,C02,C12,C13] second_factor_guard: each Sess.Put("uid", ?v) =>
 //@       before Body.Read(PageTOTPValidate) -> (?vals, ?re) :: re == nil &&
 //@         ite(ctxuser(r) != nil,
 //@             v == PID(ctxuser(r)) && factor_ok(ctxuser(r), vals),
@@ -57,3 +57,55 @@ package totp2fa
 //@             before Store.Load(_) -> (?u, ?le) :: le == nil && PID(u) == v && replay_ok(u, vals))
 //@   ensures[C18] no_panic: !panics
 //@   ensures[C18] save_error_outcome: each Store.Save(_) -> ?e => e != nil ==> (result == e && !emits Sess.Put(_, _))
+//@
+//@ func (*TOTP).Setup
+//@   property C13 C02
+//@   -- every setup/confirm/remove route sits behind the full-auth middleware; setup, qr and
+//@   -- confirm additionally behind the e-mail authorisation wrap when that is required
+//@   ensures[C13] routes_protected: each Router.Register(_, ?p, ?h) =>
+//@       ((p == "/2fa/totp/setup" || p == "/2fa/totp/qr" || p == "/2fa/totp/confirm") ==>
+//@           prefixof(ite(t.Config.Modules.TwoFactorEmailAuthRequired,
+//@                        "MW2(reqs=1,mountPathed=true)>EmailVerify.Wrap>ErrorHandler.Wrap>(*TOTP).",
+//@                        "MW2(reqs=1,mountPathed=true)>ErrorHandler.Wrap>(*TOTP)."), layers(h))) &&
+//@       (p == "/2fa/totp/remove" ==> prefixof("MW2(reqs=1,mountPathed=true)>ErrorHandler.Wrap>(*TOTP).", layers(h)))
+//@   ensures[C02] hijacker_registered: result == nil ==> emits Events.Register("Before", EventAuthHijack, ?h) :: fname(h) == "(*TOTP).HijackAuth"
+//@
+//@ func (*TOTP).PostSetup
+//@   property C13
+//@   -- starting enrolment only parks a fresh secret in the session; nothing is saved
+//@   ensures nothing_saved: !emits Store.Save(_) && (each Sess.Put(?k, _) => k == SessionTOTPSecret)
+//@
+//@ func (*TOTP).PostConfirm
+//@   property C13 C18
+//@   -- the secret that becomes the account's factor is the one parked in this session, a code
+//@   -- valid for it was presented, and it is saved on the request's own user
+//@   ensures[C13] enrol_needs_code: each Store.Save(?s) -> _ =>
+//@       sess_has(r, SessionTOTPSecret) && TOTPSecretKey(s) == sess(r, SessionTOTPSecret) &&
+//@       (before Body.Read(PageTOTPConfirm) -> (?vals, ?re) :: re == nil && totp_ok(val(vals, "GetCode"), sess(r, SessionTOTPSecret)))
+//@   ensures[C13] owner_only: each Store.Save(?s) -> _ =>
+//@       ite(ctxuser(r) != nil, s == ctxuser(r), before Store.Load(?p) -> (?u, ?le) :: le == nil && u == s &&
+//@           p == ite(ctxpid(r) != nil, asstring(ctxpid(r)), sess(r, "uid")))
+//@   ensures[C13] authorisation_spent: each Respond(_, PageTOTPConfirmSuccess, _) =>
+//@       (before Sess.Del(Session2FAAuthed)) && (before Sess.Del(SessionTOTPSecret)) && (before Store.Save(_) -> ?e :: e == nil)
+//@   ensures[C13] never_logs_in: !emits Sess.Put(_, _)
+//@   ensures[C18] no_panic: !panics
+//@   ensures[C18] save_error_outcome: each Store.Save(_) -> ?e => e != nil ==> (result == e && !emits Respond(_, _, _) && !emits Sess.Del(_))
+//@
+//@ func (*TOTP).PostRemove
+//@   property C13 C18
+//@   -- the factor is only removed from the request's own account and only against a current
+//@   -- code or an unused recovery code of that account
+//@   ensures[C13] disable_needs_proof: each Store.Save(?s) -> _ => TOTPSecretKey(s) == "" ==>
+//@       before Body.Read(PageTOTPValidate) -> (?vals, ?re) :: re == nil &&
+//@         ite(len(val(vals, "GetRecoveryCode")) != 0,
+//@             (exists i int :: 0 <= i && i < str_split_len(old(RecoveryCodes(s)), ",") &&
+//@                 hash_ok(str_split(old(RecoveryCodes(s)), ",")[i], val(vals, "GetRecoveryCode"))),
+//@             totp_ok(val(vals, "GetCode"), old(TOTPSecretKey(s))))
+//@   ensures[C13] owner_only: each Store.Save(?s) -> _ =>
+//@       ite(ctxuser(r) != nil, s == ctxuser(r), before Store.Load(?p) -> (?u, ?le) :: le == nil && u == s &&
+//@           (p == ite(ctxpid(r) != nil, asstring(ctxpid(r)), sess(r, "uid")) ||
+//@            (p == sess(r, SessionTOTPPendingPID) && sess_has(r, SessionTOTPPendingPID) &&
+//@             (ite(ctxpid(r) != nil, asstring(ctxpid(r)), sess(r, "uid")) == "" ||
+//@              (before Store.Load(_) -> (_, ?e0) :: e0 == ErrUserNotFound)))))
+//@   ensures[C13] never_logs_in: !emits Sess.Put(_, _)
+//@   ensures[C18] no_panic: !panics
